@@ -299,3 +299,4 @@ MANIFEST = {
     'note': 'Trusted: the three refusal rules as stated in the property; fault injector of C14.',
 }
 MANIFEST['text'] += (' ' + '15% of the parser cases carry -bf; solved cases inject transient or persistent failures, and those without a failure also check the lexicographic optimum (extras kept with their criterion).')
+MANIFEST['text'] += (' ' + 'Half of the solved cases with a failure solve the same object again without failure and require the full list of criteria; 40% have a bystander Solver with other criteria on the same file solved before the results are read.')
